@@ -95,7 +95,39 @@ def det_decls(tier: str, seed: int):
             cfg.sorted_value = sv
             cfg.sorted_name = sn and all(a.ident < b.ident for a, b in zip(d.variants, d.variants[1:]))
             out.append((d, cfg))
-    return out
+    # siblings: for every declaration with holes one more with the same enum name, the same smallest and largest
+    # discriminant and the same number of variants, but another value set in between.  A cache inside the macro which
+    # is keyed by less than the whole declaration (round 6, W17a: runs memoised per (name, min, max, count) for the
+    # life of the compiler process) then gives one of the two the other's tables -- in the processes where the sibling
+    # is expanded first (the expansion order is rotated per process), so the same input has two outputs.
+    sibs = []
+    seen = set()
+    for d, cfg in out:
+        if d.gapless() or d.key() in seen:
+            continue
+        seen.add(d.key())
+        vals = [v.value for v in d.variants]
+        have = set(vals)
+        lo, hi = min(vals), max(vals)
+        pick = None
+        for i, v in enumerate(vals):
+            if v in (lo, hi):
+                continue
+            for w in (v + 1, v - 1):
+                if lo < w < hi and w not in have and ((v - 1 in have) != (w - 1 in have - {v}) or (v + 1 in have) != (w + 1 in have - {v})):
+                    pick = (i, w)
+                    break
+            if pick:
+                break
+        if not pick:
+            continue
+        nv = list(vals)
+        nv[pick[0]] = pick[1]
+        d2 = shapes.build_decl(d.repr, nv, d.shape + "_sib", "mixed", "none", rng)
+        d2.name = d.name
+        c2 = corpus.legalize(corpus.cfg_all({"as_str": "table", "from_str": "match", "FromStr": "auto", "iter": "next_and_back"}), d2)
+        sibs.append((d2, c2))
+    return out + sibs
 
 
 def run(tier: str, seed: int) -> int:
